@@ -33,7 +33,7 @@ HEADER_ITEMS = [  # (section index line, mnemonic, unit, value, descr)
 TITLES = {"V": "~Version", "W": "~Well", "C": "~Curve", "P": "~Parameter", "A": "~ASCII"}
 DATA = [["10", "2.5"], ["20", "-9"]]
 DATA_NEG = [["10", "-2.5"], ["20", "-9"]]  # a hyphen in every data line: the reader re-inspects the section without its hyphen substitutions
-KINDS = ["insert", "insert-1row", "pad-header", "pad-data", "rewrap", "delimiter"]
+KINDS = ["insert", "insert-1row", "pad-header", "pad-title", "pad-data", "rewrap", "delimiter"]
 BOUNDS = {
     "quick": {"kinds": KINDS, "pad_cap": 2, "header_pad_cap": 1, "comment_cap": 3, "engines": ["numpy", "normal"], "task_budget_s": 900},
     "thorough": {"kinds": KINDS, "pad_cap": 3, "header_pad_cap": 2, "comment_cap": 5, "engines": ["numpy", "normal"], "task_budget_s": 3000},
@@ -43,7 +43,7 @@ ASSUMPTIONS = [
     "one transformation per run (quick), composed with LF/CRLF and final-newline choices; sites, amounts and characters of the transformation are symbolic",
     "genfromtxt is the validated contract stub of C02",
 ]
-WITNESS_TARGETS = ["comment-line-in-data-section", "blank-line-in-header", "tab-padding", "crlf", "wrap-one-value-per-line", "comma-delimited", "indented-comment-line", "comma-delimited-hyphen-in-every-line"]
+WITNESS_TARGETS = ["comment-line-in-data-section", "blank-line-in-header", "tab-padding", "crlf", "wrap-one-value-per-line", "comma-delimited", "indented-comment-line", "comma-delimited-hyphen-in-every-line", "indented-title-line"]
 EXCLUSIONS = {}
 
 
@@ -54,6 +54,11 @@ def tasks(tier):
         if k == "pad-header":
             for li in ([0, 5, 6, 8] if tier == "quick" else range(len(HEADER_ITEMS))):
                 out.append({"name": "pad-header-%s" % HEADER_ITEMS[li][1], "params": {"kind": k, "item": li, "pcap": b["header_pad_cap"], "ccap": b["comment_cap"]}, "weight": 3})
+        elif k == "pad-title":
+            for tk in (["W", "C"] if tier == "quick" else ["V", "W", "C", "P", "A"]):
+                out.append({"name": "pad-title-%s" % tk, "params": {"kind": k, "title": tk, "pcap": b["header_pad_cap"] + 1, "ccap": b["comment_cap"]}, "weight": 3})
+                if tk == "W":  # a 1.2 file: the ~Well title decides the value/description order of its lines
+                    out.append({"name": "pad-title-W-1.2", "params": {"kind": k, "title": tk, "v12": True, "pcap": b["header_pad_cap"] + 1, "ccap": b["comment_cap"]}, "weight": 3})
         elif k == "delimiter":
             for dlm in ("SPACE", "TAB", "COMMA"):
                 out.append({"name": "delimiter-%s" % dlm, "params": {"kind": k, "dlm": dlm, "pcap": b["header_pad_cap"], "ccap": b["comment_cap"]}, "weight": 4})
@@ -154,7 +159,7 @@ def harness(ns, params):
         fnl = fresh_bool("final_newline")
         eng = fresh_bool("engine_numpy")
         sel = fresh_int("sel", 0, 80)
-        inputs = {"kind": kind, "crlf": crlf, "final_newline": fnl, "engine_numpy": eng, "sel": sel, "params": {k: v for k, v in params.items() if k in ("item", "dlm", "neg")}}
+        inputs = {"kind": kind, "crlf": crlf, "final_newline": fnl, "engine_numpy": eng, "sel": sel, "params": {k: v for k, v in params.items() if k in ("item", "dlm", "neg", "title", "v12")}}
         cx = core.ctx()
         cx.inputs = inputs
         apply_exclusions(inputs)
@@ -172,8 +177,17 @@ def harness(ns, params):
         if kind == "insert-1row":
             data = [["10", "2.5"]]  # a single depth step
         base = base_lines(wrap, dlm, data)
+        if params.get("v12"):
+            base = [("VERS. 1.2 : v" if ln == "VERS. 2.0 : v" else ("COMP. company : ACME OIL" if ln == "COMP. ACME OIL : company" else ln)) for ln in base]
         lines = list(base)
-        if kind in ("insert", "insert-1row"):
+        if kind == "pad-title":
+            idx = base.index(TITLES[params["title"]])
+            pad = lambda nm: {"name": nm, "lo": 0, "hi": pcap, "cls": blank_or_tab}
+            lay = Layout("T", [pad("p0"), {"name": "t", "lit": TITLES[params["title"]]}, pad("p1")])
+            lines[idx] = lay.line
+            inputs["line"] = lay.line
+            core.witness("indented-title-line", lay.nonempty("p0"))
+        elif kind in ("insert", "insert-1row"):
             # a blank / whitespace-only / (possibly indented) comment line before line p (p = len: at the very end)
             A(z.le(sel.e, 3 * (len(base) + 1) - 1))
             sv = sel.__index__()
@@ -256,7 +270,7 @@ def harness(ns, params):
         terms = [("\r\n" if crlf_c else "\n")] * len(lines)
         if not fnl_c:
             terms[-1] = ""
-        ref = reference((kind if kind != "insert" else "base", wrap, dlm, len(base), bool(params.get("neg"))), base, eng_c)
+        ref = reference((kind if kind != "insert" else "base", wrap, dlm, len(base), bool(params.get("neg")), bool(params.get("v12"))), base, eng_c)
         las = ns.las.LASFile()
         try:
             las.read(SymFile(lines, terms), engine=eng_c)
@@ -286,8 +300,12 @@ def replay(i):
     if kind == "insert-1row":
         data = [["10", "2.5"]]
     base = base_lines(wrap, dlm, data)
+    if i["params"].get("v12"):
+        base = [("VERS. 1.2 : v" if ln == "VERS. 2.0 : v" else ("COMP. company : ACME OIL" if ln == "COMP. ACME OIL : company" else ln)) for ln in base]
     lines = list(base)
-    if kind in ("insert", "insert-1row"):
+    if kind == "pad-title":
+        lines[base.index(TITLES[i["params"]["title"]])] = i["line"]
+    elif kind in ("insert", "insert-1row"):
         lines.insert(sel // 3, i["inserted"])
     elif kind == "pad-header":
         it = HEADER_ITEMS[i["params"]["item"]]
